@@ -282,9 +282,11 @@ class NetworkClient(KGLambda):
         From the KlongPy perspective, any outstanding remote calls will fail with the close_exception.
 
         """
-        for future in self.pending_responses.values():
+        # caller threads register futures in this table (NetworkClient.call) while the listener fails the
+        # pending ones: take them out one at a time instead of iterating over the live dictionary
+        while self.pending_responses:
+            _, future = self.pending_responses.popitem()
             future.set_exception(close_exception)
-        self.pending_responses.clear()
 
     def run_client(self):
         """
